@@ -9,15 +9,16 @@ FP = {'ev_periodic_start.function_pointer_call.1': ['resched'], 'env_advance.fun
 def ob(name, nev, nmax, **kw):
     o = dict(name=name, src='h_simul.c', defs=['NEV=%d' % nev, 'NMAX=%d' % nmax], units=[], incl=['src/echsd.c'], replay_units='all', replay_extra_units=['src/logger.c'],
              unwind=max(nev, 5) + 1, solver='cadical', timeout=900, mem_gb=12, object_bits=12, checks=['--bounds-check', '--pointer-check'],
-             restrict_fp=FP, allow_nobody=['snprintf', 'lseek', 'echs_log', 'echs_errlog', 'obint_name', 'dt_strf'],
+             restrict_fp=FP, replace_calls={'add_chkpnt': 'env_add_chkpnt', 'make_chld': 'env_make_chld', 'free_chld': 'env_free_chld'}, allow_nobody=['snprintf', 'lseek', 'echs_log', 'echs_errlog', 'obint_name', 'dt_strf'],
              enc=['task_cb', 'chld_cb', 'run_task', 'vtodoify', 'make_chld', 'free_chld', 'unsched'],
              sym='both limits and the schedule of %d events' % nev, bounds='2 tasks, %d events, limits 1..%d or unset' % (nev, nmax),
              outside='longer schedules; the real libev; real processes',
-             stubs=['libev/spawn/fd stand-ins (harness/common/echsd_env.h)', 'fdprnt.h pre-empted by capturing writers', 'hook pool sizes 2/4'])
+             stubs=['make_chld/free_chld replaced by a separate-objects allocator (the malloc-threaded pool costs > 40 GB of formula)', 'add_chkpnt() cut (goto-instrument --replace-calls): checkpoint bookkeeping is C06', 'libev/spawn/fd stand-ins (harness/common/echsd_env.h)', 'fdprnt.h pre-empted by capturing writers', 'hook pool sizes 2/4'])
     o.update(kw)
     return o
 OBLIGATIONS = [
-    ob('simul_ev3_n2', 3, 2),
-    ob('simul_ev4_n2', 4, 2, tiers=('thorough',), timeout=3000, mem_gb=30),
-    ob('simul_ev7_n3', 7, 3, tiers=('thorough',), timeout=3000, mem_gb=24),
+    ob('two_tasks_ev3_n2', 3, 2, bounds='2 tasks, 3 events: one task reaching its limit does not change how the other is started (the static argument vector)'),
+    ob('one_task_ev4_n2', 4, 2, defs=['NEV=4', 'NMAX=2', 'ONETASK'], bounds='1 task, 4 events, limits 1..2 or unset'),
+    ob('one_task_ev6_n3', 6, 3, defs=['NEV=6', 'NMAX=3', 'ONETASK'], bounds='1 task, 6 events, limits 1..3 or unset', tiers=('thorough',), timeout=3000, mem_gb=30),
+    ob('two_tasks_ev5_n2', 5, 2, tiers=('thorough',), timeout=3000, mem_gb=30),
 ]
